@@ -4,19 +4,41 @@ import (
 	"net/http"
 	"net/http/httptest"
 	"sync"
+	"sync/atomic"
+	"time"
 
 	"github.com/maruel/panicparse/v2/stack/webstack"
 
 	"verifharness/core"
 )
 
+var parkedCount atomic.Int64
+
 //go:noinline
 func parkDeep(n int, ch chan struct{}, a, b uintptr) int {
 	if n == 0 {
+		parkedCount.Add(1) // about to block at full depth
 		<-ch
 		return 0
 	}
 	return parkDeep(n-1, ch, a+1, b+2) + 1
+}
+
+// waitParked waits until want goroutines have reached the bottom of parkDeep and the dump size is stable.
+func waitParked(base, want int64) int {
+	for i := 0; i < 2000 && parkedCount.Load()-base < want; i++ {
+		time.Sleep(5 * time.Millisecond)
+	}
+	last := -1
+	for i := 0; i < 50; i++ {
+		n := len(captureAll())
+		if n == last {
+			return n
+		}
+		last = n
+		time.Sleep(10 * time.Millisecond)
+	}
+	return last
 }
 
 // webCutRounds: the handler with maxmem below the size of the dump parses a
@@ -27,10 +49,12 @@ func webCutRounds(r *core.Run, rounds int) {
 		ch := make(chan struct{})
 		var wg sync.WaitGroup
 		n := 2500 + rr.Intn(1500)
+		base := parkedCount.Load()
 		for i := 0; i < n; i++ {
 			wg.Add(1)
 			go func(d int) { defer wg.Done(); parkDeep(d, ch, 0xc000000000, 7) }(5 + rr.Intn(25))
 		}
+		waitParked(base, int64(n))
 		func() {
 			defer func() {
 				if p := recover(); p != nil {
